@@ -39,8 +39,14 @@ func c09GroupExprs() []c09Group {
 		{ref.Call("upper", ref.Value()), "u", "u"},
 		{ref.Call("is_int", ref.Value()), "b", "b"},
 		{ref.Call("strlen", ref.Key()), "kl", "kl"},
+		// float-valued grouping expressions (only on the float universes)
+		{ref.Call("float", ref.Value()), "f", "f"},
+		{ref.Bin("*", ref.Call("float", ref.Value()), ref.Fl(0.5)), "h", "h"},
 	}
 }
+
+// c09FloatGroup: indexes of the float-valued grouping expressions.
+func c09FloatGroup(gi int) bool { return gi >= 7 }
 
 type c09Aggr struct {
 	text string
@@ -222,6 +228,8 @@ var c09Universes = []c09Universe{
 	{"float", []string{"a", "a1", "b", "b1"}, []string{"0.5", "0.75", "2.5", "-0.5"}, "float"},
 	// integers beyond 2^53: neighbours share one float64 image
 	{"bigint", []string{"a", "a1", "b", "b1"}, []string{"9007199254740993", "9007199254740992", "9007199254740994", "-9007199254740993"}, "int"},
+	// floats that agree in their first six decimals
+	{"nearfloat", []string{"a", "a1", "b", "b1"}, []string{"0.12345671", "0.12345672", "1.5", "-0.5"}, "float"},
 }
 
 func c09Stores(u c09Universe, maxPairs int) [][]store.Pair {
@@ -316,7 +324,26 @@ func c09Units(t core.Tier) []c09Unit {
 	}
 	var us []c09Unit
 	for _, g := range gsets {
+		nf := 0
+		for _, gi := range g {
+			if c09FloatGroup(gi) {
+				nf++
+			}
+		}
 		for u := range c09Universes {
+			if nf > 0 {
+				// float-valued grouping only where values are floats; alone or
+				// together with the key's first byte / the is_int flag
+				ok := c09Universes[u].dom == "float" && nf == 1
+				for _, gi := range g {
+					if !c09FloatGroup(gi) && gi != 2 && gi != 5 {
+						ok = false
+					}
+				}
+				if !ok {
+					continue
+				}
+			}
 			us = append(us, c09Unit{g, u})
 		}
 	}
@@ -417,7 +444,12 @@ func c09Judge(c *c09Case) (f *core.Failure, nontrivial bool, status, observed st
 			if err != nil {
 				return nil, false, "out-of-domain", "ood"
 			}
-			tuple = append(tuple, contentOf(v.Canon()))
+			if v.K == 'F' {
+				// a float group value is compared as a number, whatever its rendering
+				tuple = append(tuple, "F:"+strconv.FormatFloat(v.F, 'g', -1, 64))
+			} else {
+				tuple = append(tuple, contentOf(v.Canon()))
+			}
 		}
 		k := strings.Join(tuple, "\x00") + fmt.Sprint(len(tuple))
 		for i, s := range tuple {
@@ -479,7 +511,13 @@ func c09Judge(c *c09Case) (f *core.Failure, nontrivial bool, status, observed st
 			return mk("column-count", wantStr(), out.Describe()), nontrivial, "", observed
 		}
 		for j := 0; j < ng; j++ {
-			if got := contentOf(ref.Canon(row[j])); got != want[i][j] {
+			got := contentOf(ref.Canon(row[j]))
+			if strings.HasPrefix(want[i][j], "F:") {
+				if fv, err := strconv.ParseFloat(got, 64); err == nil {
+					got = "F:" + strconv.FormatFloat(fv, 'g', -1, 64)
+				}
+			}
+			if got != want[i][j] {
 				return mk("wrong-group-value", wantStr(), out.Describe()), nontrivial, "", observed
 			}
 		}
